@@ -1242,7 +1242,16 @@ impl<'a> Iterator for TLVSequenceTLVIter<'a> {
     type Item = Result<TLV<'a>, Error>;
 
     fn next(&mut self) -> Option<Self::Item> {
-        self.try_next().transpose()
+        let result = self.try_next();
+
+        if result.is_err() {
+            // The error is yielded once and the iteration ends, so that a consumer which
+            // does not stop at the first error still terminates
+            self.seq = TLVSequence::EMPTY;
+            self.nesting = 0;
+        }
+
+        result.transpose()
     }
 }
 
@@ -1268,9 +1277,18 @@ impl<'a> Iterator for TLVSequenceIter<'a> {
     type Item = Result<TLVElement<'a>, Error>;
 
     fn next(&mut self) -> Option<Self::Item> {
-        self.0
+        let result = self
+            .0
             .current()
-            .and_then(|current| self.advance().map(|_| current))
+            .and_then(|current| self.advance().map(|_| current));
+
+        if result.is_err() {
+            // The error is yielded once and the iteration ends, so that a consumer which
+            // does not stop at the first error still terminates
+            self.0 = TLVSequence::EMPTY;
+        }
+
+        result
             .map(|elem| (!elem.is_empty()).then_some(elem))
             .transpose()
     }
